@@ -249,6 +249,7 @@ type incrRig struct {
 	arrive  map[byte]chan struct{}
 	release map[byte]chan struct{}
 	tick    chan time.Time
+	done    chan struct{} // one token per finished goroutine of the pair (parser, sender)
 }
 
 var curIncr *incrRig
@@ -445,8 +446,13 @@ func incrOne(tr *tracer.T, cfg *incrIn, pi int, path []map[string]interface{}, h
 				}
 			}
 		}()
-		go func() { runAbortable(func() { ds.VerifSendTargetCommand(cc) }) }()
-		go func() { runAbortable(func() { ds.VerifParseSourceCommand(bufio.NewReaderSize(fd, 64)) }) }()
+		rigDone := make(chan struct{}, 2)
+		rig.done = rigDone
+		go func() { runAbortable(func() { ds.VerifSendTargetCommand(cc) }); rigDone <- struct{}{} }()
+		go func() {
+			runAbortable(func() { ds.VerifParseSourceCommand(bufio.NewReaderSize(fd, 64)) })
+			rigDone <- struct{}{}
+		}()
 		if cfg.Free {
 			return true
 		}
@@ -488,6 +494,19 @@ func incrOne(tr *tracer.T, cfg *incrIn, pi int, path []map[string]interface{}, h
 			case rig.tick <- time.Now():
 			default:
 			}
+		}
+		// the old parser / sender end now (dead connections, freed gates, closed feed), usually by the tool's "panic = exit";
+		// wait for them so that their abort is not taken for one of the restarted pair
+		if rig != nil && rig.done != nil {
+			deadline := time.After(2 * time.Second)
+			for i := 0; i < 2; i++ {
+				select {
+				case <-rig.done:
+				case <-deadline:
+					i = 2
+				}
+			}
+			rig.done = nil
 		}
 		time.Sleep(2 * time.Millisecond)
 		takeAborts()
@@ -637,7 +656,7 @@ func incrOne(tr *tracer.T, cfg *incrIn, pi int, path []map[string]interface{}, h
 			var off int64
 			var db int
 			var lerr error
-			ab, pan := runAbortable(func() {
+			ab, pan := runAbortableOwn(func() {
 				runid, off, db, lerr = checkpoint.LoadCheckpoint(0, incrSrc, []string{addr}, "auth", "tgt-SECRET-pw", utils.CheckpointKey, false, false)
 			})
 			tr.Emit(tracer.Ev{"e": "restart", "case": pi, "runid_known": runid != "?" && runid != "", "offset": off, "db": db, "err": lerr != nil || ab != nil || pan != ""})
